@@ -253,7 +253,10 @@ CHECKS["C04"] = dict(
          "git-commit buffers, with the ground truth recorded while rendering; TLC validates every Src event "
          "(spec/trace/Trace_SourceFile.tla): every prose word is a Word token with identical text at its true offset, "
          "no word-like token lies outside the prose, none of the marker words placed in code, string literals, URLs, "
-         "inline code, fences, math, tags or ignore-marked comments reaches the rules.",
+         "inline code, fences, math, tags or ignore-marked comments reaches the rules. The line-based comment parsers "
+         "are specified in spec/CommentLines.tla (leaders, offsets, code fences of both kinds, four named deviations); "
+         "every sequence of <= 5 line kinds from TLC is rendered in nine language / comment styles and parsed by the "
+         "real parsers (spec/trace/Trace_CommentLines.tla).",
     note="Trusted: TLC; the generators' templates (valid per grammar, accepted by the unchanged tree). Third-party "
          "parsers are black boxes; files outside the segment grammar (macros, heredocs, nested comment syntaxes) are not "
          "covered.",
